@@ -13,6 +13,7 @@ import (
 type verifLive6 struct {
 	e      *base.SentinelEntry
 	res, v int
+	nargs  int
 	exited bool
 }
 
@@ -69,6 +70,7 @@ func VerifC06() {
 			r, v := rt.Choice(2), rt.Choice(2+rt.Param("NOARGS"))
 			var e *base.SentinelEntry
 			var blk *base.BlockError
+			nargs := 2
 			if v == 2 { // an entry without arguments: no rule selects a value, it is admitted and counted nowhere
 				e, blk = Entry(names[r], WithSlotChain(sc))
 				rt.Assert(e != nil && blk == nil, "an entry without arguments is not subject to parameter rules (also on a recycled context)")
@@ -77,6 +79,9 @@ func VerifC06() {
 				}
 			} else if r == 0 {
 				e, blk = Entry(names[r], WithSlotChain(sc), WithArgs(vals[v], "other"))
+			} else if rt.Bool("oneArg") {
+				nargs = 1
+				e, blk = Entry(names[r], WithSlotChain(sc), WithArgs(vals[v])) // the last argument is also the first: index -1 reaches exactly the start of the list
 			} else {
 				e, blk = Entry(names[r], WithSlotChain(sc), WithArgs("other", vals[v])) // G selects the last argument
 			}
@@ -88,7 +93,7 @@ func VerifC06() {
 					rt.Assert(blk.BlockType() == base.BlockTypeHotSpotParamFlow, "rejected with a hotspot block")
 				}
 				if e != nil {
-					es = append(es, &verifLive6{e: e, res: r, v: v})
+					es = append(es, &verifLive6{e: e, res: r, v: v, nargs: nargs})
 					live[r][v]++
 				}
 			}
@@ -116,9 +121,9 @@ func VerifC06() {
 				args := l.e.Context().Input.Args
 				idx := 0
 				if l.res == 1 {
-					idx = 1
+					idx = l.nargs - 1
 				}
-				rt.Assert(len(args) == 2 && args[idx] == vals[l.v], "a live entry keeps the arguments it was entered with")
+				rt.Assert(len(args) == l.nargs && args[idx] == vals[l.v], "a live entry keeps the arguments it was entered with")
 			}
 		}
 	}
